@@ -203,7 +203,9 @@ def run_check(chk, tier, seed, replay, t0):
                 # a recorded finding explains a case only when the model (which mirrors the recorded behaviour) agrees
                 # with the implementation on it; a case with this signature AND a broken correspondence is something
                 # else hiding behind the finding's name: hand it to the neighbourhood search below
-                extra = [x for x in spec_fail if x[3].get("corr") != "ok" and
+                # (families judged by a direct expectation have no model run: their verdict lines say CORR=diff whenever
+                # the expectation fails, so the rule does not apply to them)
+                extra = [x for x in spec_fail if x[3].get("corr") != "ok" and not x[2].get("special") and
                          (chk.signature(x[2], x[3]) if hasattr(chk, "signature") else x[0]) == sig]
                 corr_only.extend(("corr",) + tuple(x[1:]) for x in extra[:8])
                 continue
